@@ -137,7 +137,7 @@ fn main() {
             }
         }
         "corpus" => {
-            for (name, cs) in [("A", corpus::corpus_a()), ("B", corpus::corpus_b()), ("C", corpus::corpus_c())] {
+            for (name, cs) in [("A", corpus::corpus_a()), ("P", corpus::corpus_a_param_variants()), ("B", corpus::corpus_b()), ("C", corpus::corpus_c())] {
                 let comparable = cs.iter().filter(|c| c.comparable()).count();
                 let ro = cs.iter().filter(|c| !c.program.read_only.is_empty()).count();
                 println!("corpus {name}: {} cases, {comparable} comparable, {ro} with read-only annotations, {} diagnostics", cs.len(), cs.iter().filter(|c| c.diagnostics).count());
